@@ -2,6 +2,9 @@
 replayer, so nothing in here may import crosshair."""
 import linecache
 import os
+
+# the repository under test: /repo, unless a calibration run points the checks at a scratch copy (tools/calibrate.sh)
+REPO = os.environ.get("VERIF_REPO", "/repo")
 from typing import Dict, List, Optional, Union
 
 
